@@ -2,6 +2,7 @@
 from contracts import misc_small  # noqa
 from contracts import c12_rxn_arith as ARITH
 from contracts import c12_model_copy as MCOPY
+from contracts import w_tolerance as WT
 from props._generic import run_property, replay_with_driver
 
 LEVEL = "other"
@@ -9,7 +10,11 @@ KEYS = ["Reaction.copy", "Model.__setstate__", "Reaction.update_variable_bounds"
 
 
 def run(rep):
-    run_property(rep, KEYS, more=list(ARITH.GROUPS) + [(MCOPY.KEYS, MCOPY.HOOKS)], lemmas=lambda: ARITH.lemmas() + MCOPY.lemmas(), explanation=(
+    run_property(rep, KEYS, more=list(ARITH.GROUPS) + [(MCOPY.KEYS, MCOPY.HOOKS), (WT.KEYS, WT.HOOKS)], lemmas=lambda: ARITH.lemmas() + MCOPY.lemmas(), explanation=(
+        "The Model.tolerance setter (an assumed contract until round 5) is proved against its body: every optlang tolerance "
+        "(feasibility, optimality, integrality) the interface supports is set to the value on the tolerances object of this "
+        "model's solver configuration, an unsupported one is left alone (AttributeError swallowed), self._tolerance is set on every "
+        "path, nothing else is written; Model.__setstate__ uses that proved contract at its call site. "
         "Deductive part: Reaction.copy is proved (two loop invariants over the recorded (member, model) pairs, built from the "
         "reaction's metabolites and genes in any iteration order) to return a different, detached object and to leave EVERY model "
         "pointer of the operand, its metabolites and its genes as found on normal return - also for a reaction that has been removed "
@@ -42,7 +47,7 @@ def run(rep):
         trusted=["copy.copy / copy.deepcopy / pickle (assumed)", "Model.copy: allocation by the constructors Model() / Metabolite() / Gene(None) / Reaction() / Group(id), "
                  "copy() and deepcopy() returns a NEW object (assumed contracts); set-valued fields are modelled by value; "
                  "(Reaction.update_genes_from_gpr and Group.add_members: their contracts proved under C02 are applied at the call sites, "
-                 "call-site lemmas obliged); a copy of a rule object has the same gene names", "Model.tolerance setter touches only the solver configuration (assumed contract)", "an exception inside deepcopy would leave the pointers cleared "
+                 "call-site lemmas obliged); a copy of a rule object has the same gene names", "optlang: solver.configuration.tolerances is a function of the solver object; assigning a tolerance attribute stores the value there or raises AttributeError with nothing written (ghost predicate tol_supported); logger / interface_to_str opaque", "an exception inside deepcopy would leave the pointers cleared "
                  "(no try/finally in Reaction.copy): outside the contract's normal-return case"])
 
 
